@@ -80,7 +80,7 @@ package gnmi
 //@   ensures {C13} other-targets-untouched: forall t string :: t != resolvedTarget(idPrefix, id) ==> (t in targets) == old(t in targets) && targets[t] == old(targets[t])
 
 //@ func (*Server).doDelete(s, prefix, gnmiPath, target) (err)
-//@   props C13, C12
+//@   props C13, C12, C03
 //@   safe
 //@   modifies target.removes, checkFailures, lastFindExact, lastFindKey
 //@   requires serverWF(s) && target != nil && target.plugin != nil
